@@ -6,8 +6,10 @@ import (
 	"encoding/json"
 	"fmt"
 	"os"
+	"runtime"
 	"runtime/debug"
 	"strings"
+	"time"
 )
 
 // RunWorker executes cases [from,to) of p in this process and writes <prefix>.json.
@@ -21,6 +23,19 @@ func RunWorker(p Property, tier Tier, seed uint64, from, to int, prefix string, 
 	defer logf.Close()
 	b := NewBatch(p.ID())
 	b.From, b.To = from, to
+	// safety net: a runaway case must not eat the machine. Exceeding the cap ends this process
+	// (the driver then re-runs the case in isolation and decides).
+	go func() {
+		var ms runtime.MemStats
+		for {
+			time.Sleep(250 * time.Millisecond)
+			runtime.ReadMemStats(&ms)
+			if ms.Sys > memCapBytes() {
+				fmt.Fprintf(os.Stderr, "MEMORY-CAP exceeded: %d MB in use, ending worker\n", ms.Sys>>20)
+				os.Exit(97)
+			}
+		}
+	}()
 	_, wantDigests := p.(Repeater)
 	for idx := from; idx < to; idx++ {
 		fmt.Fprintf(logf, "call %d\n", idx)
@@ -64,4 +79,11 @@ func runCase(p Property, c *Case) {
 		}
 	}()
 	p.Run(c)
+}
+
+func memCapBytes() uint64 {
+	if os.Getenv("VERIF_ISOLATED") != "" {
+		return 6 << 30
+	}
+	return 3 << 30
 }
